@@ -346,6 +346,14 @@ class PythonTemplater(RawTemplater):
                         "variables? https://docs.sqlfluff.com/en/stable/"
                         "perma/variables.html".format(err)
                     )
+            except (IndexError, ValueError, AttributeError, TypeError) as err:
+                # The other ways in which `str.format` rejects a string, e.g.
+                # positional fields ("{}"), unbalanced braces, attribute
+                # lookups on context values or invalid format specs.
+                raise SQLTemplaterError(
+                    "Failure in Python templating: {}. Is this a valid python "
+                    "format string?".format(err)
+                )
             return rendered_str
 
         raw_sliced, sliced_file, new_str = self.slice_file(
